@@ -21,6 +21,11 @@
 (*   is not seen through the other.  The fork is given up when the overlay *)
 (*   it was copied from is committed or discarded (its inner tree changes  *)
 (*   under it only then).                                                  *)
+(* st.cold: the tree object was re-opened from the database at some point  *)
+(*   (its nodes are read back lazily from their stored form).  The ordered *)
+(*   map does not depend on it - it is state of the implementation, kept   *)
+(*   in the model state so that generation emits histories that continue   *)
+(*   on a re-opened tree and not only the shortest history of each map.    *)
 (* Reads (Get of every key, Iterator Seek+Next from every seek position)   *)
 (* are not separate steps: their expected answers are attached to every    *)
 (* emitted operation and the harness performs them after the operation.    *)
@@ -89,7 +94,7 @@ Step(s, op) ==
             IF base THEN [s EXCEPT !.tree = Remove(s.tree, 0, op.k)]
             ELSE SetTop(s, Del(Top(s), op.k))
       [] op.a = "commit" -> [s EXCEPT !.ctree = s.tree]
-      [] op.a = "reopen" -> [s EXCEPT !.tree = s.ctree]
+      [] op.a = "reopen" -> [s EXCEPT !.tree = s.ctree, !.cold = TRUE]
       [] op.a = "onew" -> [s EXCEPT !.ovl = Append(s.ovl, Top(s))]
       [] op.a = "ocommit" -> DropFork(s,
             IF Len(s.ovl) = 1 THEN [s EXCEPT !.tree = Canon(Top(s)), !.ovl = <<>>]
@@ -120,7 +125,7 @@ Obs(s, op, s2) ==
      fview |-> IF s2.fork # <<>> THEN Pairs(s2.fork.m) ELSE <<>>]
 
 Init ==
-    /\ st = [tree |-> Nil, ctree |-> Nil, ovl |-> <<>>, fork |-> <<>>]
+    /\ st = [tree |-> Nil, ctree |-> Nil, ovl |-> <<>>, fork |-> <<>>, cold |-> FALSE]
     /\ hist = <<>>
 
 Next ==
@@ -142,7 +147,7 @@ Observe(s, h, acc) ==
     IF h = <<>> THEN acc
     ELSE LET s2 == Step(s, Head(h)) IN Observe(s2, Tail(h), Append(acc, Obs(s, Head(h), s2)))
 
-Behaviour == Observe([tree |-> Nil, ctree |-> Nil, ovl |-> <<>>, fork |-> <<>>], hist, <<>>)
+Behaviour == Observe([tree |-> Nil, ctree |-> Nil, ovl |-> <<>>, fork |-> <<>>, cold |-> FALSE], hist, <<>>)
 
 EmitInv == (hist # <<>>) => PrintT(ToJson([ops |-> Behaviour]))
 
